@@ -44,7 +44,9 @@ Cmp(x, y) ==
   \* (a K-odd parent and its middle child share a centre only up to rounding): compared under exact maps only
   ELSE IF exact /\ Has(x, "cands") /\ x.cands # y.cands THEN "pair.cell"
   ELSE IF Has(x, "sub") /\ x.sub # y.sub THEN "pair.learners"
-  ELSE IF Has(x, "pt") /\ exact /\ x.pt # y.pt THEN "pair.point"
+  \* rank codes are comparable only when both traces contain the same set of coordinates; a run with extra
+  \* recommendation queries may contain more (wrappers record no tree), so there positions are compared instead
+  ELSE IF Has(x, "pt") /\ exact /\ Pr.dropq = 0 /\ x.pt # y.pt THEN "pair.point"
   ELSE IF Has(x, "rel") /\ ~(\A j \in DOMAIN x.rel : Near(x.rel[j], y.rel[j], IF exact THEN 0 ELSE Pr.tol)) THEN "pair.position"
   ELSE IF Has(x, "r") /\ x.r # y.r THEN "pair.harness-rewards-differ"
   ELSE "ok"
